@@ -236,9 +236,18 @@ func GenRandom(seed int64, n int) []Row {
 		if (hasDocKey(tool, "ids") || hasDocKey(tool, "items") || hasDocKey(tool, "preview_only") || hasDocKey(tool, "limit")) && rng.Intn(100) < 15 {
 			backend = "proxy"
 		}
+		conf := "all"
+		switch p := rng.Intn(100); {
+		case p < 4 && (hasDocKey(tool, "path") || lifecycle):
+			conf = "nocfg"
+		case p < 7 && hasDocKey(tool, "pid_file"):
+			conf = "nopid"
+		case p < 9 && backend == "sqlite":
+			conf = "nodb"
+		}
 		b, _ := json.Marshal(a)
 		rows = append(rows, Row{ID: fmt.Sprintf("rnd-%d-%05d", seed, i), Tool: tool, Role: c.role, Mut: c.mut, Rc: c.rc, Principal: c.principal,
-			Actor: "absent", Shape: "random", Lab: Lab{Path: "none", Pid: "none", Actor: "absent", Mode: "none", Wire: wire, Backend: backend}, ArgsTpl: string(b), Health: health})
+			Actor: "absent", Shape: "random", Lab: Lab{Path: "none", Pid: "none", Actor: "absent", Mode: "none", Wire: wire, Backend: backend, Conf: conf}, ArgsTpl: string(b), Health: health})
 	}
 	return rows
 }
